@@ -192,6 +192,19 @@ type c02Prepared struct {
 	vars     map[string]interface{}
 }
 
+type c02SharedRec struct {
+	Tags  []interface{}
+	Names []string
+}
+
+var c02Shared = func() map[string]interface{} {
+	sp := make([]interface{}, 0, 16)
+	sp = append(sp, "s1", "s2", "s3")
+	names := make([]string, 0, 8)
+	names = append(names, "n2", "n1")
+	return map[string]interface{}{"sp": sp, "m": map[string]interface{}{"a": 1, "b": 2}, "rec": &c02SharedRec{Tags: sp[:2], Names: names}, "names": names}
+}()
+
 var c02LoadProbe = map[string]interface{}{"x": "lx", "mk": "probe"}
 
 func c02Exec(e *twig.Engine, c *c02Prepared) (r c02Res) {
@@ -201,10 +214,13 @@ func c02Exec(e *twig.Engine, c *c02Prepared) (r c02Res) {
 		}
 	}()
 	// every call gets its own copy of the context map: the engine is shared, the arguments are not
-	vars := make(map[string]interface{}, len(c.vars))
+	vars := make(map[string]interface{}, len(c.vars)+1)
 	for k, v := range c.vars {
 		vars[k] = v
 	}
+	// ... except for application data that every call reads: the same list (built with append: spare capacity), map
+	// and record in every context
+	vars["shared"] = c02Shared
 	switch c.op {
 	case "render":
 		out, err := e.Render(c.n, vars)
